@@ -295,6 +295,8 @@ def check_train(ctx):
     for n in ast.walk(lp.test):
         if isinstance(n, ast.Call) and isinstance(n.func, ast.Attribute) and n.func.attr == "stop":
             call = n
+    if call is not None and lp.test is call:
+        return [Finding("C19", "C19.TRAIN.loop", "train", "the training loop runs while %s is true: it trains only once the condition says stop" % ast.unparse(call)[:60], path, lp.lineno, None, "loop-polarity")]
     if call is None or not (isinstance(lp.test, ast.UnaryOp) and isinstance(lp.test.op, ast.Not)):
         raise AnalysisError("train: loop condition is not `not <stop_condition>.stop(...)`")
     if len(call.args) != 5:
@@ -344,6 +346,31 @@ def check_train(ctx):
     top_incs = [s for s in lp.body if isinstance(s, ast.AugAssign) and isinstance(s.target, ast.Name) and s.target.id == epoch_v and isinstance(s.op, ast.Add) and isinstance(s.value, ast.Constant) and s.value.value == 1]
     if len(incs) != 1 or len(top_incs) != 1:
         out.append(Finding("C19", "C19.TRAIN.epoch", "train", "the epoch counter %s is not incremented exactly once per iteration" % epoch_v, path, lp.lineno, None, "epoch-increment"))
+    # initial values: the stop condition is consulted before the first epoch with epoch 0 and no losses yet
+    pre = {}
+    for st in fn.body:
+        if st is lp:
+            break
+        if isinstance(st, ast.Assign):
+            for tg in st.targets:  # a = b = v, and (a, b) = (v, w)
+                if isinstance(tg, ast.Name):
+                    pre[tg.id] = (st.value, st.lineno)
+                elif isinstance(tg, (ast.Tuple, ast.List)) and isinstance(st.value, (ast.Tuple, ast.List)) and len(tg.elts) == len(st.value.elts):
+                    for te, ve in zip(tg.elts, st.value.elts):
+                        if isinstance(te, ast.Name):
+                            pre[te.id] = (ve, st.lineno)
+        elif isinstance(st, ast.AnnAssign) and isinstance(st.target, ast.Name) and st.value is not None:
+            pre[st.target.id] = (st.value, st.lineno)
+    for v in (epoch_v, tl_v, vl_v):
+        if v not in pre or not isinstance(pre[v][0], ast.Constant):
+            raise AnalysisError("train: the value of %s before the first epoch is not a literal assignment (%s)" % (v, ast.unparse(pre[v][0]) if v in pre else "none found"))
+    e0, e0line = pre[epoch_v]
+    if e0.value != 0 or isinstance(e0.value, bool):
+        out.append(Finding("C19", "C19.TRAIN.epoch", "train", "the epoch counter %s starts at %r, not 0: an epoch-count condition stops after the wrong number of epochs" % (epoch_v, e0.value), path, e0line, None, "epoch-initial"))
+    for v, role in ((tl_v, "training"), (vl_v, "validation")):
+        a0, a0line = pre[v]
+        if a0.value is not None:
+            out.append(Finding("C19", "C19.TRAIN.roles", "train", "before the first epoch the %s loss handed to stop() is %r, not None: a patience condition would record it as a loss" % (role, a0.value), path, a0line, None, "initial-loss"))
     rets = [n for n in ast.walk(fn) if isinstance(n, ast.Return) and n.value is not None]
     stop_obj = ast.unparse(call.func.value)
     for r in rets:
